@@ -15,6 +15,55 @@ class TC(Agent):
     def initialize(self):
         self.agent_type = "c"
 
+class TN(Agent):
+    """an agent whose initialize() creates another agent (nested creation)"""
+    def initialize(self):
+        self.agent_type = "n"
+        self.model.create_agent("a", None)
+
+def consistent(m):
+    """the queries agree with each other (no prediction of the ids needed)"""
+    ids = [a.id for a in m.agents]
+    if len(set(ids)) != len(ids):
+        return "ids are not unique: %r" % ids
+    for a in m.agents:
+        r = m.agent(a.id)
+        if r is not a:
+            return "agent(%d) returns %r, not the agent with that id (type %s)" % (a.id, None if r is None else (r.id, r.agent_type), a.agent_type)
+    for t in ("a", "b", "c", "n"):
+        exp = [a.id for a in m.agents if a.agent_type == t]
+        try:
+            got = list(m.agent_ids(t)); cnt = m.agent_count(t)
+        except Exception as e:
+            if not exp:
+                continue
+            return "agent_ids/agent_count(%s) raised %s" % (t, type(e).__name__)
+        if sorted(got) != sorted(exp) or cnt != len(exp):
+            return "agent_ids(%s)=%r, agent_count=%r, the live agents of that type are %r" % (t, got, cnt, exp)
+    return None
+
+def run_nested(ops):
+    """histories with an agent type whose initialize() creates another agent: ('n',) create a nesting agent, ('a',) a plain one,
+    ('d', k) delete the k-th live agent, ('dall', type) delete_agents(agent_ids(type)) with the list the model hands out"""
+    m = fresh_model()
+    m.register_agent_factory("n", lambda i, mod, p: TN(i, mod, p))
+    for n, op in enumerate(ops):
+        try:
+            if op[0] == "n":
+                m.create_agent("n", None)
+            elif op[0] == "a":
+                m.create_agent("a", None)
+            elif op[0] == "d" and m.agents:
+                m.delete_agent(m.agents[op[1] % len(m.agents)].id)
+            elif op[0] == "dall":
+                m.delete_agents(m.agent_ids(op[1]))
+        except Exception as e:
+            return "step %d %r raised %s: %s" % (n, op, type(e).__name__, e)
+        bad = consistent(m)
+        if bad:
+            return "after step %d %r: %s" % (n, op, bad)
+    return None
+
 def fresh_model():
     m = Model(scheduler=SimultaneousScheduler(), data_collector=DataCollector())
     m.register_agent_factory("a", lambda i, mod, p: TA(i, mod, p))
@@ -127,7 +176,7 @@ def run(ops):
             return "after step %d %r: %s" % (n, op, bad)
     return None
 
-ops = [('configure', (('c', 1), ('b', 1))), ('churn', (0, 1, 2), 'c')]
+ops = [('creates', 'b', 1), ('state', 4, 'x')]
 bad = run(ops)
 print("history:", ops)
 print("FAIL: " + bad if bad else "PASS")
